@@ -103,19 +103,20 @@ func clForceLeft(hist []string, m string) bool {
 func clusterRun(ctx *vc.Ctx, faults bool) {
 	type cfg struct {
 		n, l, depth int
-		pre         bool
+		pre         int // start state, see clPreKind
 	}
 	var cfgs []cfg
 	switch {
 	case !faults && !ctx.Thorough():
-		cfgs = []cfg{{3, 2, 6, true}, {2, 3, 10, false}, {3, 2, 5, false}}
+		cfgs = []cfg{{3, 2, 6, 1}, {2, 3, 10, 0}, {3, 2, 5, 0}}
 	case !faults:
-		cfgs = []cfg{{3, 3, 7, true}, {2, 4, 12, false}, {3, 3, 7, false}}
+		cfgs = []cfg{{3, 3, 7, 1}, {2, 4, 12, 0}, {3, 3, 7, 0}}
 	case !ctx.Thorough():
-		cfgs = []cfg{{3, 2, 6, true}, {2, 3, 8, false}, {3, 3, 4, false}}
+		cfgs = []cfg{{3, 2, 6, 1}, {2, 3, 8, 0}, {3, 3, 4, 0}, {3, 2, 5, 2}, {3, 2, 5, 3}}
 	default:
-		cfgs = []cfg{{3, 3, 7, true}, {2, 4, 10, false}, {3, 3, 6, false}}
+		cfgs = []cfg{{3, 3, 7, 1}, {2, 4, 10, 0}, {3, 3, 6, 0}, {3, 3, 6, 2}, {3, 3, 6, 3}}
 	}
+
 	if !faults {
 		scn, depth := "observer;T=2", 7
 		if ctx.Thorough() {
@@ -131,11 +132,12 @@ func clusterRun(ctx *vc.Ctx, faults bool) {
 			f = 1
 		}
 		scn := fmt.Sprintf("N=%d;L=%d;faults=%d", c.n, c.l, f)
-		if c.pre {
-			scn += ";pre=1"
+		if c.pre > 0 {
+			scn += fmt.Sprintf(";pre=%d", c.pre)
 		}
 		var shapes []clShape
 		ctx.BFS(vc.BFSOpts{Scenario: scn, MaxDepth: c.depth}, func(hist []string, v vc.BFSViolation) {
+			eff := append(clPreHist(scn), hist...) // what the start state already contains counts for attribution
 			kinds := clKinds(hist)
 			if v.Class == "step" || v.Class == "self" || v.Class == "panic" || v.Class == "harness" {
 				ctx.Violation(scn, v.Signature, fmt.Sprintf("history %v\n%s", hist, v.Message), map[string]interface{}{"scenario": scn, "history": hist})
@@ -147,14 +149,14 @@ func clusterRun(ctx *vc.Ctx, faults bool) {
 				class, member = class[:i], class[i+8:]
 			}
 			v.Class = class
-			if (class == "truth=alive reported=leaving" || class == "truth=alive reported=left") && clForceLeft(hist, member) {
+			if (class == "truth=alive reported=leaving" || class == "truth=alive reported=left") && clForceLeft(eff, member) {
 				// root cause of the second recorded finding: the member was force-left while it
 				// was unreachable; the left-list of a push/pull carries that leave as status
 				// time + 1, which equals the Lamport time of the member's refuting join
 				ctx.Violation(scn, "truth=alive reported=leaving: a left-list entry (status time + 1) collides with the member's refuting/rejoin time", fmt.Sprintf("shortest history: %v\n%s", hist, v.Message), map[string]interface{}{"scenario": scn, "history": hist})
 				return
 			}
-			if class == "truth=left reported=failed" && clSyncWhileLeaving(hist, member) {
+			if class == "truth=left reported=failed" && clSyncWhileLeaving(eff, member) {
 				// root cause named by the recorded finding: a state sync (push/pull or join) with the
 				// member while its graceful leave was in progress
 				ctx.Violation(scn, "truth=left reported=failed after a state sync with the member while it was mid-leave", fmt.Sprintf("shortest history: %v\n%s", hist, v.Message), map[string]interface{}{"scenario": scn, "history": hist})
